@@ -48,14 +48,14 @@ Record vmon := mkVmon {
   vm_host_reg : bool; vm_host_name : bytes;
   vm_updated : bool; vm_last_req : option service;
   vm_probe : option (bytes * Z);      (* latest service probe: name, instant *)
-  vm_disturbed : bool;
+  vm_disturbed : bool * bool;         (* since the latest probe a conflicting response named like it arrived: (at all, strictly within its 2000 ms) *)
   vm_conf : option bytes;             (* instance name the provider is entitled to speak for *)
   vm_announced : list record;         (* announced with nonzero TTL and not withdrawn *)
   vm_served : option (record * record * record * record);    (* browse, ptr, srv, txt of the last announcement; None after a goodbye *)
   vm_listener : list ment;            (* a passive RFC 6762 cache fed with the provider's multicast responses *)
   vm_alive : bool; vm_now : Z }.
 
-Definition vmon0 := mkVmon [] false [] false None None false None [] None [] false 0.
+Definition vmon0 := mkVmon [] false [] false None None (false, false) None [] None [] false 0.
 
 Definition is_addr_type (t : N) : bool := (t =? 1)%N || (t =? 28)%N.
 Definition is_host_reply (m : message) : bool := forallb (fun r => is_addr_type (r_type r)) (m_records m).
@@ -113,7 +113,7 @@ Definition entitle (focus : N) (q : vmon) (t : Z) (m : message) : vmon + N :=
       if match vm_conf q with Some c => bytes_eqb c n | None => false end then inl q else
       match vm_probe q with
       | Some (pn, t') =>
-          if (bytes_eqb pn n && negb (vm_disturbed q) && (t' + 2000 <=? t)) || negb (in_focus focus 14)
+          if (bytes_eqb pn n && negb (fst (vm_disturbed q)) && (t' + 2000 <=? t)) || negb (in_focus focus 14)
           then inl (mkVmon (vm_reg_names q) (vm_host_reg q) (vm_host_name q) (vm_updated q) (vm_last_req q) (vm_probe q)
                            (vm_disturbed q) (Some n) (vm_announced q) (vm_served q) (vm_listener q) (vm_alive q) (vm_now q))
           else inr 14%N
@@ -167,7 +167,7 @@ Definition note_poll (q : vmon) (f : bool) (b : bstr) : vmon :=
          f (bs_data b) (vm_updated q) (vm_last_req q) (vm_probe q) (vm_disturbed q) (vm_conf q) (vm_announced q)
          (vm_served q) (vm_listener q) (vm_alive q) (vm_now q).
 Definition note_probe (q : vmon) (n : bytes) (t : Z) : vmon :=
-  mkVmon (vm_reg_names q) (vm_host_reg q) (vm_host_name q) (vm_updated q) (vm_last_req q) (Some (n, t)) false (vm_conf q)
+  mkVmon (vm_reg_names q) (vm_host_reg q) (vm_host_name q) (vm_updated q) (vm_last_req q) (Some (n, t)) (false, false) (vm_conf q)
          (vm_announced q) (vm_served q) (vm_listener q) (vm_alive q) (vm_now q).
 
 (* 20 answer differs from the C11 specification   21 an answer is missing   22 an answer although none is due *)
@@ -212,14 +212,15 @@ Definition vmon_input (q : vmon) (o : aop papi) : vmon :=
                          | Some (pn, _) => existsb (fun r => bytes_eqb (bs_data (r_name r)) pn && (r_type r =? 33)%N) (m_records m)
                          | None => false
                          end
-      then mkVmon (vm_reg_names q) (vm_host_reg q) (vm_host_name q) (vm_updated q) (vm_last_req q) (vm_probe q) true (vm_conf q)
+      then mkVmon (vm_reg_names q) (vm_host_reg q) (vm_host_name q) (vm_updated q) (vm_last_req q) (vm_probe q)
+                  (true, snd (vm_disturbed q) || match vm_probe q with Some (_, t') => vm_now q <? t' + 2000 | None => false end) (vm_conf q)
                   (vm_announced q) (vm_served q) (vm_listener q) (vm_alive q) (vm_now q)
       else q
   | AApi (PUpdate s) =>
       mkVmon (vm_reg_names q) (vm_host_reg q) (vm_host_name q) true (Some s) (vm_probe q) (vm_disturbed q) (vm_conf q)
              (vm_announced q) (vm_served q) (vm_listener q) (vm_alive q) (vm_now q)
   | AApi PNewProv =>
-      mkVmon (vm_reg_names q) (vm_host_reg q) (vm_host_name q) false None None false None [] None [] true (vm_now q)
+      mkVmon (vm_reg_names q) (vm_host_reg q) (vm_host_name q) false None None (false, false) None [] None [] true (vm_now q)
   | AAdv t | AAdvB t | ALate t =>
       mkVmon (vm_reg_names q) (vm_host_reg q) (vm_host_name q) (vm_updated q) (vm_last_req q) (vm_probe q) (vm_disturbed q) (vm_conf q)
              (vm_announced q) (vm_served q) (vm_listener q) (vm_alive q) (Z.max (vm_now q) t)
@@ -237,8 +238,8 @@ Definition vmon_step (focus : N) (q : vmon) (o : aop papi) (outs : list out) : v
       | AApi PDestroy =>
           if vm_alive q1 then
             match vm_listener q1 with
-            | [] => inl (mkVmon (vm_reg_names q1) (vm_host_reg q1) (vm_host_name q1) false None None false None [] None [] false (vm_now q1))
-            | _ :: _ => soft focus 40 (mkVmon (vm_reg_names q1) (vm_host_reg q1) (vm_host_name q1) false None None false None [] None [] false (vm_now q1))
+            | [] => inl (mkVmon (vm_reg_names q1) (vm_host_reg q1) (vm_host_name q1) false None None (false, false) None [] None [] false (vm_now q1))
+            | _ :: _ => soft focus 40 (mkVmon (vm_reg_names q1) (vm_host_reg q1) (vm_host_name q1) false None None (false, false) None [] None [] false (vm_now q1))
             end
           else inl q1
       | _ => inl q1
@@ -248,6 +249,7 @@ Definition vmon_step (focus : N) (q : vmon) (o : aop papi) (outs : list out) : v
 (* ---- end of script, after settling: C12 (serves exactly the last supplied service) and C13 (listener = served) ----
    30 nothing served although a service was supplied and everything is quiescent     31 wrong type / instance is not the latest
    probed candidate of the requested name   32 wrong port   33 wrong attributes   34 SRV target is not the registered hostname
+   35 the served instance name is taken (a conflicting response arrived strictly inside the 2000 ms after its latest probe)
    41 the listener's records differ from the served PTR, SRV, TXT *)
 Definition starts_with (p l : bytes) : bool := bytes_eqb (firstn (length p) l) p.
 Definition is_candidate_of (base tail n : bytes) : bool :=
@@ -278,6 +280,11 @@ Definition vmon_final (q : vmon) : option N :=
                       | Some (pn, _) => if is_candidate_of base tail pn then bytes_eqb pn inst else true
                       | None => false
                       end) then Some 31%N else
+          (* the served name is taken: its owner answered strictly within the 2000 ms that followed the latest probe for it *)
+          if match vm_probe q with
+             | Some (pn, _) => is_candidate_of base tail pn && bytes_eqb pn inst && snd (vm_disturbed q)
+             | None => false
+             end then Some 35%N else
           if negb (r_port sr =? s_port s)%N then Some 32%N else
           if negb (attrs_eqb (r_attrs x) (s_attrs s)) then Some 33%N else
           if negb (bytes_eqb (bs_data (r_target sr)) (vm_host_name q)) then Some 34%N else
